@@ -348,11 +348,18 @@ func (b *Builder) interfaceHash(t *types.Interface) (ret []byte, pkg string) {
 	fmt.Fprintln(h, "interface", n)
 	for i := 0; i < n; i++ {
 		m := t.Method(i)
-		if !m.Exported() && pkg == "" {
-			pkg = m.Pkg().Path()
+		name := m.Name()
+		if !m.Exported() {
+			if p := m.Pkg().Path(); pkg == "" {
+				pkg = p
+			} else if p != pkg {
+				// An unexported method of another package (it arrived through an
+				// embedded interface) is a different method: qualify its name.
+				name = p + "." + name
+			}
 		}
 		ft := b.FuncName(m.Type().(*types.Signature))
-		fmt.Fprintln(h, m.Name(), ft)
+		fmt.Fprintln(h, name, ft)
 	}
 	ret = h.Sum(b.buf[:0])
 	return
